@@ -28,7 +28,7 @@ LEVEL_NOTE = (
 TECHNIQUE = "property-based testing with harness-owned schedules: notification-sequence grammar + exact per-scope totals vs. spec-level oracle"
 RULE = (
     "Hypothesis draws a plan spec with nested scopes (optionally registry world with a short history), always-failing "
-    "calls raising Exception subclasses, max_errors, workers, scheduler, schedule, 1..3 observers and optionally a transform_physical callback (copying / in-place, adding a call, wrapping the output). Oracle as in "
+    "calls raising Exception subclasses, max_errors, workers, scheduler, schedule, 1..3 observers (optionally one more composite member failing in its own __enter__/__exit__) and optionally a transform_physical callback (copying / in-place, adding a call, wrapping the output). Oracle as in "
     "LEVEL_TEXT. Non-trivial = >= 2 distinct scopes and (a failure or a registry). Distinct = SHA-1 of the case."
 )
 ASSUMPTIONS = ["calls end normally or with an Exception (the statement's proviso)"]
